@@ -64,8 +64,10 @@ class DirectoryMatcher:
         """
         if dir_path == "/":
             return self._check_root_match(dir_path, path_str)
-        if path_str.startswith(dir_path):
-            depth = len(dir_path.split("/"))
+        # Match whole path components only: "src" contains "src/a.py" but not "srcx/a.py"
+        prefix = dir_path.rstrip("/")
+        if path_str == prefix or path_str.startswith(prefix + "/"):
+            depth = len(prefix.split("/"))
             return True, depth
         return False, -1
 
